@@ -352,6 +352,7 @@ func checkC08(c *Check) {
 			f := &c08Facts{sane: map[string]bool{}, lenGE: map[string]string{}, capGE: map[string]bool{}, counted: map[string]bool{}, zero: map[string]bool{}}
 			w.block(g.ir(fi).Body, f)
 			fixedArrayIndexBounded(c, g, g.co.Spec.Name+":"+fi.Name(), fi)
+			lexerNilGuarded(c, g, g.co.Spec.Name+":"+fi.Name(), fi)
 		}
 	})
 	// the bound itself: CheckLengthSanity compares in 64 bits (count*minSize in uint32 wraps at 2^32 and lets huge counts through)
@@ -388,6 +389,7 @@ func checkC08(c *Check) {
 	c.Floor("reader/slice-bound-established", 150)
 	c.Floor("reader/loop-terminates", 150)
 	c.Floor("reader/fixed-array-index-bounded", 200)
+	c.Floor("reader/json-lexer-nil-guarded", 300)
 }
 
 // fixedArrayIndexBounded: every non-constant index into a fixed-size array (or a pointer to one) in a reader is bounded
@@ -544,4 +546,91 @@ func fixedArrayIndexBounded(c *Check, g *genCtx, name string, fi *FuncInfo) {
 		c.Ob("reader/fixed-array-index-bounded", name+"/"+types.ExprString(ix.X), ok, posStr(g.co.Fset, ix.Pos()), why)
 		return true
 	})
+}
+
+// lexerNilGuarded: generated JSON readers are handed a nil lexer when the JSON value is absent (a Maybe without
+// "value", an omitted nat-dependent field, a union without "value"); every method call on the lexer parameter is
+// therefore under `lexer != nil` (or after `lexer == nil → return`).
+func lexerNilGuarded(c *Check, g *genCtx, name string, fi *FuncInfo) {
+	ir := g.ir(fi)
+	lex := ""
+	for _, p := range ir.Params {
+		if pt, ok := p.Var.Type().(*types.Pointer); ok {
+			// basictl.JsonLexer is an alias of easyjson's jlexer.Lexer
+			if n := namedOf(pt); n != nil && n.Obj().Pkg() != nil && (n.Obj().Name() == "JsonLexer" && isBasictl(n.Obj().Pkg()) || n.Obj().Name() == "Lexer" && strings.HasSuffix(n.Obj().Pkg().Path(), "/jlexer")) {
+				lex = p.Name
+			}
+		}
+	}
+	if lex == "" {
+		return
+	}
+	bad := token.NoPos
+	n := 0
+	var walk func(b Block, guarded bool)
+	walk = func(b Block, guarded bool) {
+		for _, nd := range b {
+			switch nd := nd.(type) {
+			case *CallN:
+				if nd.Recv == lex {
+					n++
+					if !guarded && bad == token.NoPos {
+						bad = nd.Pos
+					}
+				}
+				for _, cl := range nd.Closures {
+					walk(cl.Body, guarded)
+				}
+			case *IfN:
+				isNonNil := func(cd *Cond) bool {
+					ok := false
+					var rec func(cd *Cond)
+					rec = func(cd *Cond) {
+						if cd.Kind == "cmp" && cd.X == lex && cd.Y == "nil" && cd.Op == "!=" && !cd.Neg {
+							ok = true
+						}
+						if cd.Kind == "and" {
+							for _, s := range cd.Sub {
+								rec(s)
+							}
+						}
+					}
+					rec(cd)
+					return ok
+				}
+				isNil := nd.Cond.Kind == "cmp" && nd.Cond.X == lex && nd.Cond.Y == "nil" && (nd.Cond.Op == "!=" && nd.Cond.Neg || nd.Cond.Op == "==" && !nd.Cond.Neg)
+				// a method call inside the condition itself
+				if strings.Contains(nd.Cond.String(), lex+".") && !guarded && !isNonNil(nd.Cond) && bad == token.NoPos {
+					bad = nd.Pos
+				}
+				walk(nd.Then, guarded || isNonNil(nd.Cond))
+				walk(nd.Else, guarded || isNil)
+				if isNil && len(returnsOf(nd.Then)) > 0 && len(nd.Then) > 0 {
+					if _, ends := nd.Then[len(nd.Then)-1].(*ReturnN); ends {
+						guarded = true
+					}
+				}
+			case *LoopN:
+				if nd.Cond != nil && strings.Contains(nd.Cond.String(), lex+".") && !guarded && bad == token.NoPos {
+					bad = nd.Pos
+				}
+				walk(nd.Body, guarded)
+			case *SwitchN:
+				for _, cs := range nd.Cases {
+					walk(cs.Body, guarded)
+				}
+			case *ClosureN:
+				walk(nd.Body, guarded)
+			}
+		}
+	}
+	walk(ir.Body, false)
+	if n == 0 {
+		return
+	}
+	at := posStr(g.co.Fset, fi.Decl.Pos())
+	if bad != token.NoPos {
+		at = posStr(g.co.Fset, bad)
+	}
+	c.Ob("reader/json-lexer-nil-guarded", name, bad == token.NoPos, at, fmt.Sprintf("%d method calls on the lexer parameter, all under `lexer != nil`: %v (the reader is called with a nil lexer for absent values)", n, bad == token.NoPos))
 }
